@@ -755,6 +755,9 @@ func (r RepData) sampleDur() uint32 {
 	if r.DefaultSampleDuration != 0 {
 		return r.DefaultSampleDuration
 	}
+	if r.ConstantSampleDuration != nil && *r.ConstantSampleDuration != 0 {
+		return *r.ConstantSampleDuration // All samples have this duration, but it is only signaled per sample
+	}
 	switch {
 	case strings.HasPrefix(r.Codecs, "mp4a.40") && r.MediaTimescale == 48000:
 		return 1024
